@@ -241,3 +241,18 @@ Lemma lxor_range a b : inr a -> inr b -> inr (Z.lxor a b).
 Proof.
   rewrite !inr_shiftr, Z.shiftr_lxor. intros [-> | ->] [-> | ->]; cbn; auto.
 Qed.
+
+Global Arguments wrap64 : simpl never.
+Global Arguments wadd : simpl never.
+Global Arguments wsub : simpl never.
+Global Arguments wmul : simpl never.
+Global Arguments wneg : simpl never.
+Global Arguments wdiv : simpl never.
+Global Arguments wrem : simpl never.
+Global Arguments wshl : simpl never.
+Global Arguments wshr : simpl never.
+Global Arguments wpow : simpl never.
+Global Arguments wpow_loop : simpl never.
+Global Arguments as_u32 : simpl never.
+Global Arguments as_u64 : simpl never.
+Global Arguments bnot : simpl never.
